@@ -267,6 +267,11 @@ def mutate(rng, text: str) -> str:
     if r < 0.4:  # one line
         return " ".join(text.split("\n"))
     if r < 0.55:  # toggle a sign
+        if rng.random() < 0.2:  # ... of a head literal: "not a :- B." is the constraint ":- B, a."
+            heads = [m.start() for m in re.finditer(r"(?m)^[a-z][A-Za-z0-9_]*(?:\([^()]*\))? :-", text)]
+            if heads:
+                i = rng.choice(heads)
+                return text[:i] + rng.choice(["not ", "not ", "not not "]) + text[i:]
         lits = [m.start() for m in re.finditer(r"(?<=[,;:] )[a-z]", text)]
         if lits:
             i = rng.choice(lits)
